@@ -5,7 +5,7 @@ CONSTANTS
   LeafSet = "bool"
   Depth = 0
   ParenStyles = {}
-  SpellNames = {"s1", "s2", "s3", "s4"}
+  SpellNames = {"s1", "s2", "s3", "s4", "s5"}
   EmitTrees = FALSE
   Alpha = "T"
   Contexts = {"qrot"}
